@@ -156,4 +156,18 @@ CLAIMS = {
         'technique': 'static analysis: exception-edge CFG with a frozen atom set for ast.parse, Optional-value '
                      'dataflow across resolved callees, def-use provenance (ast only)',
     },
+    'C15': {
+        'text': "Ownership: who writes raw_output/output (class and package sweep) and that _stop_mocking hands the "
+                "popped per-execution buffer and the same context to append_output. Semantics by decision tables: "
+                "append_output is executed abstractly over previous raw text x 7 new texts (empty, no trailing "
+                "newline, blank lines, whitespace only) and must give raw = previous + new, context = new, and the "
+                "line view extended by the right-stripped lines of the right-stripped text iff the new text is "
+                "non-empty; the input tracker closure is tabulated over queue contents x prompt (FIFO, consumed once, "
+                "prompt echoed, default '0', recorded in the current context); set_input over 8 input forms x clear x "
+                "previous queue; queue_input/clear_input/clear_output wiring.",
+        'note': _NOTE + "Assumes output that bypasses sys.stdout is out of scope and (C05.R1) _stop_mocking runs on "
+                        "every exit.",
+        'technique': 'static analysis: who-writes ownership sweep, finite-domain decision tables by abstract '
+                     'interpretation of append_output / input tracker / set_input (ast only)',
+    },
 }
